@@ -253,7 +253,15 @@ def lock_discipline(ctx: Ctx, rule: str) -> None:
         return out
 
     def locked(f, need: str = "any") -> bool:
-        d = decorator_names(f)
+        d = set(decorator_names(f))
+        # the spelled-out form of the decorators: the whole body is one `with self.lock:` / `with self.lock_hashes:`
+        body = [b for b in f.body if not (isinstance(b, ast.Expr) and isinstance(b.value, ast.Constant))]
+        if len(body) == 1 and isinstance(body[0], ast.With):
+            for it in body[0].items:
+                if dotted(it.context_expr) == "self.lock":
+                    d.add("synchronized")
+                elif dotted(it.context_expr) == "self.lock_hashes":
+                    d.add("synchronized_hashes")
         if need == "data":
             return "synchronized" in d  # the lock of the entries, shared by readers and writers of the data
         return "synchronized" in d or "synchronized_hashes" in d
